@@ -126,6 +126,9 @@ class Gen:
     # ------------------------------------------------------------------ C rendering
     def c_cond(self, c):
         _, a, op, k = c
+        # half of the conditions evaluate to a truth value other than 1 (a mask / count style condition)
+        if (a + k) % 2:
+            return '((x->v[%d] %s %d) * %d)' % (a, op, k, 2 + a + k)
         return '(x->v[%d] %s %d)' % (a, op, k)
 
     def render_block(self, block, ind, lines, loopbase):
